@@ -55,6 +55,12 @@ InitStep(e) ==
               ELSE IF ~(\A c \in 1 .. T0.n : Fresh(<<c>> \o e.f[c])) THEN "grow.init-not-fresh"
               ELSE "ok"]
 
+\* VHCT: where the variance a cell holds is not the variance of its history (C04's soft clause), the index (C05) and the
+\* threshold (C06) are judged against the variance of the history as well -- the property speaks of the rewards the cell
+\* received, not of whatever the tree recorded.  Never evaluated where recorded and true variance agree.
+VarOff(st, c) == st.cnt[c] > 0 /\ AbsI(st.var[c] - VarFx(PP, st, c)) > PP.tolv
+HistVar(st) == [st EXCEPT !.var = [c \in DOMAIN st.var |-> IF st.cnt[c] > 0 THEN VarFx(PP, st, c) ELSE st.var[c]]]
+
 \* ---- pull / get_last_point -------------------------------------------------
 \* VHCT recomputes the per-cell thresholds at the start of a pull: only column 9 may change
 OnlyTauChanges(fc) == \A i \in DOMAIN fc : fc[i][1] \in DOMAIN F /\ SubSeq(fc[i], 2, 9) = SubSeq(F[fc[i][1]], 1, 8)
@@ -64,11 +70,15 @@ PullStep(e) ==
       st == St(T, F1, iter)
       es == PullEnds(PP, st) \cap SeqRange(e.cands)
       tauok == PP.algo # "VHCT" \/ (\A c \in Cells(T) \ {1} : TauVClose(st.tau[c], TauVEst(PP, st, c, Epoch(iter)), TauVX(PP, st, c)))
+      sth   == HistVar(st)
+      tauhist == PP.algo # "VHCT" \/ (\A c \in Cells(T) \ {1} : VarOff(st, c) =>
+                    \/ TauVClose(st.tau[c], TauVEst(PP, sth, c, Epoch(iter)), TauVX(PP, sth, c))
+                    \/ AbsI(st.tau[c] - TauVEst(PP, sth, c, Epoch(iter))) <= AbsI(TauVEst(PP, st, c, Epoch(iter)) - TauVEst(PP, sth, c, Epoch(iter))) \div 4)
   IN [F |-> F1, ends |-> es,
       \* C05 next to C06: when the reported thresholds are off the published formula, is the pulled cell still the end of an
       \* optimistic descent under *some* thresholds within tolerance of it?
       \* (both soft: the walk continues on the thresholds the library reports)
-      soft |-> << IF ~tauok THEN "grow.threshold-formula" ELSE "ok",        \* C06: tau scaled by the variance term, recomputed at every pull
+      soft |-> << IF ~tauok THEN "grow.threshold-formula" ELSE IF ~tauhist THEN "grow.threshold-variance-not-of-history" ELSE "ok",        \* C06: tau scaled by the variance term, recomputed at every pull
                   IF ~tauok /\ PullEndsBand(PP, st) \cap SeqRange(e.cands) = {} THEN "pull.not-optimistic-under-published-thresholds" ELSE "ok" >>,
       err |-> IF e.fc # <<>> /\ ~(PP.algo = "VHCT" /\ OnlyTauChanges(e.fc)) THEN "stats.pull-mutates"
               ELSE IF es = {} THEN "pull.not-optimistic"         \* C05: returned point is not the representative of an optimistic end cell
@@ -113,6 +123,8 @@ RecvCheck(e, e0) ==
      ELSE IF ~CountsOK(F1, iter + 1) THEN "credit.total"                                     \* C04: counts sum to the completed rounds
      ELSE "ok",
      IF ~(\A c \in tch : Close(st1.U[c], UVal(PP, st1, c, k), TolU(st1, c, k))) THEN "index.U"          \* C05: published index
+     ELSE IF PP.algo = "VHCT" /\ ~(\A c \in tch : VarOff(st1, c) => Close(st1.U[c], UVal(PP, HistVar(st1), c, k), TolU(HistVar(st1), c, k) + TolU(st1, c, k)))
+          THEN "index.U-variance-not-of-history"
      ELSE IF ~(\A c \in Cells(T) \ tch : st1.U[c] = st0.U[c]) THEN "index.U-stale"
      ELSE IF ~BLaw(st1) THEN "index.B"                                                      \* C05: B-law on every cell
      ELSE "ok" >>
